@@ -413,6 +413,16 @@ def rot_near(rng):
     """rotation incl. angles within 1e-9 of 0 and pi"""
     a = gen.unit_axis(rng)
     r = rng.random()
+    if r < 0.06:
+        # an exact half turn whose matrix is exactly symmetric (2 n n' - I, or a signed permutation): the skew part, from which
+        # the sign of the axis is normally read, is exactly zero
+        if rng.random() < 0.5:
+            n_ = a / np.linalg.norm(a)
+            return 2.0 * np.outer(n_, n_) - np.eye(3)
+        k = int(rng.integers(3))
+        D = -np.eye(3)
+        D[k, k] = 1.0
+        return D
     if r < 0.15:
         th = math.pi - gen.logu(rng, 1e-12, 1e-6)
     elif r < 0.3:
